@@ -442,6 +442,8 @@ def c20(a):
                             {"event": {"program": prog, "mismatches": e["mismatches"][:10]}})
     # every fixed offset
     drive_and_validate(c, a, binary, "c20fixed", "Trace_Handle.tla")
+    # many threads at once on one handle (the model's interleavings of clone / drop, executed as real races)
+    drive_and_validate(c, a, binary, "c20race", "Trace_Handle.tla")
     c.exhaustive = True
     c.rule = ("Engine C: TzHandle.tla (new/clone/drop over 4 handle slots and every kind: UTC, unknown, fixed, static, TZif "
               "from bytes, POSIX) model-checked exhaustively for RcInv (strong count = live handles), FreeInv (freed exactly "
@@ -450,7 +452,9 @@ def c20(a):
               "after every step compares pointer tag, heap object identity and Arc strong count (hook __verif_repr), the "
               "number of frees of each payload seen by a tracking global allocator, value equality of all live pairs and the "
               "query answer of every live handle with the model. All 187,199 fixed offsets are enumerated (Trace_Handle.tla). "
-              "Non-trivial = programs with cross-thread steps / negative offsets.")
+              "c20race: 8 threads clone, query, compare and drop one handle of each kind concurrently (thousands of operations "
+              "each); afterwards the strong count must be one, nothing may have been freed while the base handle lived, and "
+              "dropping it must free the heap object exactly once. Non-trivial = programs with cross-thread steps / negative offsets.")
     c.assumptions = TRUSTED + ["hook TimeZone::__verif_repr (read-only, cfg jiff_verif)",
                                "the harness's tracking global allocator (records alloc/dealloc addresses while a program runs)"]
     return c.finish()
